@@ -147,7 +147,11 @@ class Tie:
         self.ctx = ctx
         self.isa = isa
         self.gen_name = "PostA64Gen" if isa == "a64" else "PostX86Gen"
-        self.props = "PropsGen/C10post.v" if isa == "a64" else "PropsGen/C09post.v"
+        # property files, compiled in this order against the regenerated text (lemmas first; `Theorem`s are the obligations)
+        self.props_chain = ["PropsGen/C10postOps.v", "PropsGen/C10post.v"] if isa == "a64" else []
+        self.props = self.props_chain[-1] if self.props_chain else "PropsGen/-"
+        self._thread = None
+        self._proof = None
         self.dir = os.path.join(ctx.scratch, "cases")
         self.ok = False
         self.proved = False
@@ -190,21 +194,50 @@ class Tie:
                 ctx.obligation("theorem %s (%s)" % (n, self.props), "theorem", False, "generated definitions do not compile")
             return self
         self.ok = True
+        self._dt_gen = dt
+        self._gen_lines = text.count("\n")
         if names:
-            src = open(os.path.join(vlib.COQ, self.props)).read()
-            vfile = os.path.join(self.dir, os.path.basename(self.props))
+            # the proofs take a few minutes of CPU: compile them while the evaluation stages run (finish_T collects)
+            import threading
+            self._thread = threading.Thread(target=self._compile_props)
+            self._thread.start()
+        return self
+
+    def _compile_props(self):
+        import time
+        t0 = time.time()
+        out = ""
+        ok = True
+        for rel in self.props_chain:
+            src = open(os.path.join(vlib.COQ, rel)).read()
+            vfile = os.path.join(self.dir, os.path.basename(rel))
             with open(vfile, "w") as f:
                 f.write(src)
-            c2, o2, dt2 = ctx.coqc(vfile, timeout=900, extra_q=[(self.dir, "OVC")])
-            for n in names:
-                ctx.obligation("theorem %s (%s)" % (n, self.props), "theorem", c2, "" if c2 else o2[-3000:])
-            if c2:
-                ctx.print_assumptions[self.props] = vlib.parse_assumptions(o2)
-            ctx.checker_cmds.append("coqc -Q coq OV -Q <scratch> OVC %s" % self.props)
-            ctx.log("T(post): %s.v generated (%d lines), coqc %.1fs; %s: %s in %.1fs (%d theorems)" % (
-                self.gen_name, text.count("\n"), dt, self.props, "ok" if c2 else "FAILED", dt2, len(names)))
-            self.proved = c2
-        return self
+            cmd = "ulimit -s unlimited 2>/dev/null; exec timeout 1500 coqc -q -w -all -Q %s OV -Q %s OVC %s" % (vlib.COQ, self.dir, vfile)
+            rc, o = vlib.sh(cmd, timeout=1530, cwd=self.dir)
+            out = o
+            if rc != 0:
+                ok = False
+                out = "%s: %s" % (rel, o[-3000:])
+                break
+        self._proof = (ok, out, time.time() - t0)
+
+    def finish_T(self):
+        """collect the proofs started by run_T: one obligation per Theorem of the last file of the chain"""
+        ctx = self.ctx
+        if self._thread is None:
+            return
+        self._thread.join()
+        ok, out, dt = self._proof
+        names = self.theorem_names()
+        for n in names:
+            ctx.obligation("theorem %s (%s)" % (n, self.props), "theorem", ok, "" if ok else out)
+        if ok:
+            ctx.print_assumptions[self.props] = vlib.parse_assumptions(out)
+        ctx.checker_cmds.append("coqc -Q coq OV -Q <scratch> OVC %s" % " ".join(self.props_chain))
+        ctx.log("T(post): %s.v generated (%d lines), coqc %.1fs; %s: %s in %.1fs (%d theorems)" % (
+            self.gen_name, self._gen_lines, self._dt_gen, " + ".join(self.props_chain), "ok" if ok else "FAILED", dt, len(names)))
+        self.proved = ok
 
     # -------------------------------------------------------------- stage 3 (b): translated parse_line vs Python parse_line
     def line_cases(self, p, lines):
@@ -382,3 +415,68 @@ def a64_tree_stream(tie, p, cases, per=200):
                        "" if not f else "%d cases, first: line=%r tree=%s" % (len(f), f[0]["line"], f[0]["coq"]))
     ctx.coverage.setdefault("post_translator", {})["a64 trees"] = {"trees": len(cases), **{n[:20]: len(f) for n, f in fails.items()}}
     return fails
+
+
+# ------------------------------------------------------------------ the registration calls of checks/c10.py and checks/c09.py
+def search_failing_line(ctx, prop_key, p, lines, oracle):
+    """an obligation of the tie broke: look for a concrete line on which the implementation violates the model-free oracle"""
+    for line in lines:
+        msg = oracle(p, line)
+        if msg:
+            ctx.violation(prop_key, msg, {"line": line, "expected": "see what"})
+            return True
+    return False
+
+
+def run_a64(ctx, p, cases, extra_lines=()):
+    """checks/c10.py: cases = the generated trees of the round-trip stream (harness/c10_gen dicts)"""
+    ctx.trusted += ["tools/gen_parsepost.py + tools/py2coq_dyn.py (translator; cross-checked: the translated parse_line run on the real pyparsing "
+                    "dictionaries returns every field of what the Python parse_line returns, every run) and coq/Model/PyDyn.v + PyPost.v (semantics of the "
+                    "Python subset); coq/Model/PostA64.v gr_* (grammar result of a written tree; compared with real pyparsing output on every generated line)"]
+    ctx.assumptions += ["C10post_*_partial: operands other than register lists / ranges (their expansion loop is tied by evaluating the same statement on "
+                        "every generated tree); directive parameters / further keys / comment words as the grammar delivered them (free)"]
+    tie = Tie(ctx, "a64").run_T()
+    n_tr = ctx.n(500, 6000)
+    lines = list(extra_lines) + [c["line"] for c in cases[:n_tr]]
+    tie.run_translator_stream(p, lines, "AArch64 lines")
+    a64_tree_stream(tie, p, cases[:ctx.n(1200, 20000)])
+    good = [c["line"] for c in cases if c.get("real") == c.get("expected") and not str(c.get("real", "")).startswith("REJECT")]
+    files = make_files(ctx, good, ctx.n(25, 200))
+    tie.run_files(p, files, "AArch64")
+    tie.finish_T()
+    return tie
+
+
+def run_x86(ctx, p, lines):
+    """checks/c09.py: lines = generated x86 lines of the correspondence stream"""
+    ctx.trusted += ["tools/gen_parsepost.py + tools/py2coq_dyn.py, coq/Model/PyDyn.v + PyPost.v: translator and semantics of the Python subset for the "
+                    "post-processing stage of parser_x86att.py (cross-checked against the Python functions on the real pyparsing dictionaries every run)"]
+    tie = Tie(ctx, "x86").run_T()
+    tie.run_translator_stream(p, list(lines)[:ctx.n(700, 8000)], "x86 lines")
+    usable = [l for l in lines if l.strip() != "" and "\n" not in l]
+    good = []
+    for l in usable[:400]:
+        try:
+            p.parse_line(l, 1)
+            good.append(l)
+        except Exception:  # noqa
+            pass
+    tie.run_files(p, make_files(ctx, good, ctx.n(25, 200)), "x86")
+    tie.finish_T()
+    return tie
+
+
+BLANKS = ["", " ", "\t", "  \t ", "\r", "\x0b", "\x0c", "\x1c", "\x1f ", "\x85", "\xa0", " \xa0\t"]
+
+
+def make_files(ctx, good, n):
+    files = [("", 0), ("\n\n", 1), (" \n\t\n", 5)]
+    if not good:
+        return files
+    for _ in range(n):
+        lines = []
+        for _ in range(ctx.rng.randrange(0, 12)):
+            lines.append(ctx.rng.choice(BLANKS) if ctx.rng.random() < 0.35 else ctx.rng.choice(good))
+        content = "\n".join(lines) + ("\n" if ctx.rng.random() < 0.5 else "")
+        files.append((content, ctx.rng.choice([0, 0, 1, 7, 1000])))
+    return files
